@@ -9,7 +9,7 @@ use crate::util::{guard, par_map, Kv};
 
 pub fn meta(_ctx: &Ctx) -> Meta {
     Meta {
-        rule: "6 base networks (dense ranges; shape-preserving conv / deconv ranges; conv(k2,p1)+pool(k2,s1) composite; max-pool as range entry; flat dense output re-read as 1x3x3 at the range entry; range ending in a layer that is flattened for a following dense layer) x EVERY range a <= b whose output shape equals the input shape of a (start / middle / end) x k in 1..3 (4, 5, 6, 9 for two ranges per network) x all 5 accumulations x input skips on/off (with input skips also under a multiplicative / overwrite SKIP-connection accumulation, which must not matter) x 2 exact integer valuations (one of them with inputs scaled by 2^-20), plus pairs of disjoint ranges. Oracles: reference interpreter y_0=f(x_a), y_t=f(y_{t-1}[+x_a]), out=comb(y_0;y_1..y_k); with overwrite (no input skips) bit-equality with the plain network in which layers a..b are repeated k+1 times with the same weights. Non-trivial = reference output has >= 2 distinct non-zero entries".into(),
+        rule: "6 base networks (dense ranges; shape-preserving conv / deconv ranges; conv(k2,p1)+pool(k2,s1) composite; max-pool as range entry; flat dense output re-read as 1x3x3 at the range entry; range ending in a layer that is flattened for a following dense layer) x EVERY range a <= b whose output shape equals the input shape of a (start / middle / end) x k in 1..3 (4, 5, 6, 9 for two ranges per network) x all 5 accumulations x input skips on/off (with input skips also under a multiplicative / overwrite SKIP-connection accumulation, which must not matter) x 2 exact integer valuations (one of them with inputs scaled by 2^-20), plus pairs of disjoint ranges; plus loops NEAR A FIXED POINT: 5 ranges of a 3-layer 2->2 linear network whose repeated map is x -> g x + (1-g) (g = 2 repelling, g = 1/2 attracting) started 1 ulp (8 ulp) from the fixed point, k in {8,16,22}, all 5 accumulations - successive iterates differ by a few ulp and all arithmetic is exact. Oracles: reference interpreter y_0=f(x_a), y_t=f(y_{t-1}[+x_a]), out=comb(y_0;y_1..y_k); with overwrite (no input skips) bit-equality with the plain network in which layers a..b are repeated k+1 times with the same weights. Non-trivial = reference output has >= 2 distinct non-zero entries".into(),
         bound: "k <= 3, ranges of <= 3 layers, planes 3x3".into(),
         exhaustive: true,
         assumptions: vec!["tolerance 2e-6*max|reference| (mean over 3 operands is not exact); the unrolled-network differential is bit-exact".into()],
@@ -93,6 +93,38 @@ pub fn nets(thorough: bool) -> Vec<Net> {
     out
 }
 
+/// loops whose repeated map has a fixed point at 1 and whose input is one or two units in the last place away from it:
+/// successive iterates differ by a few ulp without being equal, so nothing may be taken as "settled". The map is
+/// x -> g x + (1 - g) per layer (g = 2: repelling, g = 1/2: attracting); all arithmetic is exact in single precision.
+pub fn fixed_point_nets() -> Vec<Net> {
+    let d = L::Dense { n: 2, act: Act::Linear, bias: true, drop: None };
+    let base = Net::new(Dims::Flat(2), vec![d.clone(), d.clone(), d]);
+    let mut out = Vec::new();
+    for (a, b) in [(0usize, 0usize), (1, 1), (0, 1), (1, 2), (2, 2)] {
+        for k in [8usize, 16, 22] {
+            for acc in A5 {
+                let mut n = base.clone();
+                n.loopacc = acc;
+                n.loopbacks = vec![(b, a, k, false)];
+                out.push(n);
+            }
+        }
+    }
+    out
+}
+
+fn fixed_point_data(net: &Net, gain: f32) -> (Vec<P<f32>>, Vec<f32>) {
+    let inside = |i: usize| net.loopbacks.iter().any(|(o, e, _, _)| *e <= i && i <= *o);
+    let params = (0..net.layers.len())
+        .map(|i| {
+            let g = if inside(i) { gain } else { 1.0 };
+            P { w: vec![vec![g, 0.0, 0.0, g]], b: Some(vec![1.0 - g, 1.0 - g]), inner: vec![] }
+        })
+        .collect();
+    let u = if gain > 1.0 { f32::EPSILON } else { 8.0 * f32::EPSILON };
+    (params, vec![1.0 + u, 1.0 - u])
+}
+
 fn class(net: &Net) -> String {
     let sh = ref_shapes(net).unwrap();
     net.loopbacks
@@ -123,13 +155,16 @@ pub fn check(seed: u64, case: &Kv, rep: &mut Report) {
     rep.transitions += 1;
     let shapes = ref_shapes(&net).unwrap();
     let key = format!("{}#{}", net.name(), v);
-    let params = structural_params(&net, &shapes, seed, &key);
+    if v >= 8 {
+        rep.count("near_fixed_point_cases", 1);
+    }
+    let params = if v >= 8 { fixed_point_data(&net, if v == 8 { 2.0 } else { 0.5 }).0 } else { structural_params(&net, &shapes, seed, &key) };
     // valuations 2 and 3 (thorough) and every odd valuation of a linear-only network use tiny inputs (2^-20): a loop
     // iteration then changes the value by far less than 1e-5 without being a fixed point
     let linear_only = !net.name().contains("relu");
     let tiny = v >= 2 || (v == 1 && linear_only);
     let unit = if net.loopacc == Acc::Mean { 12.0 } else { 1.0 } * if tiny { 9.536_743e-7 } else { 1.0 };
-    let x = structural_input(net.input.count(), unit, seed, &key);
+    let x = if v >= 8 { fixed_point_data(&net, if v == 8 { 2.0 } else { 0.5 }).1 } else { structural_input(net.input.count(), unit, seed, &key) };
     let cls = format!("{} {}", class(&net), net.loopacc.name());
     let lib_out = match predict_vs_ref(&net, &params, &x, 2e-6) {
         Ok(ok) => {
@@ -189,7 +224,8 @@ pub fn check(seed: u64, case: &Kv, rep: &mut Report) {
 pub fn run(ctx: &Ctx) -> Report {
     let ns = nets(ctx.tier.thorough());
     let vals = if ctx.tier.thorough() { 4 } else { 2 };
-    let cs: Vec<Kv> = ns.iter().flat_map(|n| (0..vals).map(move |v| Kv::new().put("net", n.name()).put("val", v))).collect();
+    let mut cs: Vec<Kv> = ns.iter().flat_map(|n| (0..vals).map(move |v| Kv::new().put("net", n.name()).put("val", v))).collect();
+    cs.extend(fixed_point_nets().iter().flat_map(|n| [8usize, 9].into_iter().map(move |v| Kv::new().put("net", n.name()).put("val", v))));
     let seed = ctx.seed;
     let chunks: Vec<&[Kv]> = cs.chunks(64).collect();
     let parts = par_map(&chunks, |_, c| {
